@@ -275,6 +275,9 @@ static hc::Outcome run_one(hc::RunSpec& rs) {
     hc::Rng r(rs.seed ^ 0xC17C17ULL);
     int P; { int x = r.below(100); P = x < 40 ? 1 : x < 70 ? 2 : x < 88 ? 3 : 4; }
     c.def("P", P); P = std::max(1, std::min(8, (int)c.i("P"))); c.set("P", P);
+#ifdef SIM_GOMP_THREADS
+    P = 1; c.set("P", 1);   // real-thread build: one inline rank, teams of real threads (race detection over the whole workflow)
+#endif
     bool big = c.i("big", 0) != 0;
     int model; { int x = r.below(100); model = x < 22 ? models::ATOM : x < 55 ? models::DIMER : x < 70 ? models::KANAMORI : x < 78 ? models::ATOM_FIELD : x < 84 ? models::DIMER_FIELD : x < 89 ? models::ATOMS2 : x < 93 ? models::EXCH2 : x < 96 ? models::TINYDIMER : x < 98 ? models::ATOMS3 : (big ? (r.pct(50) ? models::CHAIN3 : models::T2G) : models::KANAMORI); }
     c.def("model", model); model = (int)c.i("model") % models::N_MODELS; if (model < 0) model = 0; c.set("model", model);
@@ -284,6 +287,10 @@ static hc::Outcome run_one(hc::RunSpec& rs) {
     int nm = models::nmodes(model);
     c.def("ops", gen_ops(r, nm));
     hc::sim_defaults_from_seed(c, r, P);
+#ifdef SIM_GOMP_THREADS
+    if (c.i("omp") < 2) c.set("omp", 2 + (long)(rs.seed % 7));
+    if (c.i("omp") > 8) c.set("omp", 8);
+#endif
     std::vector<Op> ops = parse_ops(c.s("ops"));
     if (ops.size() > 24) ops.resize(24);
 
